@@ -84,6 +84,10 @@ pub struct Config {
 pub enum Event {
     Feed { n: usize },
     Final,
+    /// between two reads, an unrelated computation of the same primitive family (one-shot and
+    /// incremental, over n bytes under another key) runs to completion on the same thread:
+    /// objects must not share hidden state
+    Other { n: usize },
 }
 
 enum St {
@@ -101,7 +105,8 @@ enum St {
     ShaC(Sha512State),
     ShaO(dryoc::sha512::Sha512),
     SignC(SignerState, SignerState),
-    SignO(dryoc::sign::IncrementalSigner, dryoc::sign::IncrementalSigner),
+    /// (signer, verifier, a second signer whose signature goes into a `Vec<u8>`)
+    SignO(dryoc::sign::IncrementalSigner, dryoc::sign::IncrementalSigner, dryoc::sign::IncrementalSigner),
     Done,
 }
 
@@ -115,6 +120,8 @@ pub struct ChunkWorld {
     n_events: usize,
     /// object MAC flavours: (wrong candidate, accepted by the incremental verifier, accepted by the one-shot verifier)
     parity: Option<(&'static str, bool, bool)>,
+    /// further incremental-vs-one-shot discrepancies found while finalising: (flavour, detail)
+    extra: Vec<(&'static str, String)>,
 }
 
 /// A code that is not the genuine one: a flipped bit, or the genuine code cut short / extended
@@ -316,7 +323,7 @@ impl ChunkWorld {
             Prim::ShaClassic => St::ShaC(crypto_hash_sha512_init()),
             Prim::ShaObj => St::ShaO(dryoc::sha512::Sha512::new()),
             Prim::SignClassic => St::SignC(crypto_sign_init(), crypto_sign_init()),
-            Prim::SignObj => St::SignO(dryoc::sign::IncrementalSigner::new(), dryoc::sign::IncrementalSigner::new()),
+            Prim::SignObj => St::SignO(dryoc::sign::IncrementalSigner::new(), dryoc::sign::IncrementalSigner::new(), dryoc::sign::IncrementalSigner::new()),
         }
     }
 
@@ -347,11 +354,59 @@ impl ChunkWorld {
                 crypto_sign_update(a, chunk);
                 crypto_sign_update(b, chunk);
             }
-            St::SignO(a, b) => {
+            St::SignO(a, b, c) => {
                 a.update(&v);
                 b.update(&v);
+                c.update(&v);
             }
             St::Done => {}
+        }
+    }
+
+    /// An unrelated computation of the run's primitive family, one-shot and incremental, on this thread.
+    fn other(&self, n: usize) {
+        let m = pattern(7_777 + n as u64, n);
+        let k: [u8; 32] = pattern(9_999, 32).try_into().unwrap();
+        let half = n / 2;
+        match self.cfg.prim.name().split('.').next().unwrap_or("") {
+            "generichash" => {
+                let mut o = [0u8; 32];
+                let _ = crypto_generichash(&mut o, &m, Some(&k));
+                if let Ok(mut s) = crypto_generichash_init(Some(&k), 32) {
+                    crypto_generichash_update(&mut s, &m[..half]);
+                    crypto_generichash_update(&mut s, &m[half..]);
+                    let _ = crypto_generichash_final(s, &mut o);
+                }
+                std::hint::black_box(o);
+            }
+            "auth" => {
+                let mut o = [0u8; 32];
+                crypto_auth(&mut o, &m, &k);
+                let mut s = crypto_auth_init(&k);
+                crypto_auth_update(&mut s, &m[..half]);
+                crypto_auth_update(&mut s, &m[half..]);
+                crypto_auth_final(s, &mut o);
+                std::hint::black_box(o);
+            }
+            "onetimeauth" => {
+                let mut o = [0u8; 16];
+                crypto_onetimeauth(&mut o, &m, &k);
+                let mut s = crypto_onetimeauth_init(&k);
+                crypto_onetimeauth_update(&mut s, &m[..half]);
+                crypto_onetimeauth_update(&mut s, &m[half..]);
+                crypto_onetimeauth_final(s, &mut o);
+                std::hint::black_box(o);
+            }
+            _ => {
+                // sha512 and the signing flavours (which hash with it)
+                let mut o = [0u8; 64];
+                crypto_hash_sha512(&mut o, &m);
+                let mut s = crypto_hash_sha512_init();
+                crypto_hash_sha512_update(&mut s, &m[..half]);
+                crypto_hash_sha512_update(&mut s, &m[half..]);
+                crypto_hash_sha512_final(s, &mut o);
+                std::hint::black_box(o);
+            }
         }
     }
 
@@ -474,7 +529,7 @@ impl ChunkWorld {
                 let ok = crypto_sign_final_verify(verifier, &a, &pk).is_ok();
                 (a.to_vec(), b.to_vec(), Some(ok))
             }
-            St::SignO(signer, verifier) => {
+            St::SignO(signer, verifier, signer_vec) => {
                 let seed: StackByteArray<32> = StackByteArray::try_from(&key[..32]).unwrap();
                 let kp: dryoc::sign::SigningKeyPair<dryoc::sign::PublicKey, dryoc::sign::SecretKey> = dryoc::sign::SigningKeyPair::from_seed(&seed);
                 let a: dryoc::sign::Signature = signer.finalize(&kp.secret_key).expect("finalize");
@@ -482,6 +537,13 @@ impl ChunkWorld {
                 r.update(&fed.to_vec());
                 let b: dryoc::sign::Signature = r.finalize(&kp.secret_key).expect("finalize ref");
                 let ok = verifier.verify(&a, &kp.public_key).is_ok();
+                // the same incremental signature into a resizable container
+                match guarded(|| signer_vec.finalize::<Vec<u8>, _>(&kp.secret_key)) {
+                    Ok(Ok(v)) if v.as_slice() == b.as_slice() => {}
+                    Ok(Ok(v)) => self.extra.push(("sign.object(Vec)", format!("the incremental signature finalised into a Vec<u8> ({}) differs from the single-update signature ({})", hex(&v), hex(b.as_slice())))),
+                    Ok(Err(e)) => self.extra.push(("sign.object(Vec)", format!("finalising the incremental signature into a Vec<u8> returned Err({:?}) where the fixed-size container succeeded", e))),
+                    Err((l, m)) => self.extra.push(("sign.object(Vec)", format!("finalising the incremental signature into a Vec<u8> unwound: {} at {}", m, l))),
+                }
                 (a.to_vec(), b.to_vec(), Some(ok))
             }
             St::Done => (Vec::new(), Vec::new(), None),
@@ -549,7 +611,7 @@ impl World for ChunkWorld {
             None => (pattern(cfg.fill, cfg.msg_len), pattern(cfg.key_fill * 4 + 1, 64)),
         };
         let st = Self::init_state(cfg, &key);
-        ChunkWorld { cfg: cfg.clone(), msg, key, fed: 0, st, finalised: false, n_events: 0, parity: None }
+        ChunkWorld { cfg: cfg.clone(), msg, key, fed: 0, st, finalised: false, n_events: 0, parity: None, extra: Vec::new() }
     }
 
     fn next_event(&mut self, rng: &mut Rng) -> Option<Event> {
@@ -567,6 +629,9 @@ impl World for ChunkWorld {
         self.n_events += 1;
         if self.n_events > 300 {
             return Some(Event::Feed { n: remaining });
+        }
+        if rng.chance(1, 10) {
+            return Some(Event::Other { n: *rng.pick(&[0usize, 1, 15, 16, 17, 33, 63, 64, 65, 100, 127, 128, 129, 200]) });
         }
         let b = self.cfg.prim.block();
         let fill = b - self.pending() % b;
@@ -638,6 +703,16 @@ impl World for ChunkWorld {
                 out.op();
                 out.note(&format!("feed {} -> fed {}", n, self.fed));
             }
+            Event::Other { n } => {
+                if self.finalised {
+                    return;
+                }
+                out.fault("other_computation_interleaved");
+                out.shape("O");
+                self.other(*n);
+                out.op();
+                out.note(&format!("other computation over {} bytes", n));
+            }
             Event::Final => {
                 if self.finalised {
                     return;
@@ -656,6 +731,9 @@ impl World for ChunkWorld {
                         site(&[("primitive", flavour.split('.').next().unwrap()), ("flavour", flavour), ("backend", backend_name())]),
                         format!("after feeding {} bytes in pieces the incremental result {} differs from the one-shot result {}", self.fed, hex(&a), hex(&b)),
                     );
+                }
+                for (fl, detail) in std::mem::take(&mut self.extra) {
+                    out.violate("C08", "c08.result_equal", site(&[("primitive", fl.split('.').next().unwrap()), ("flavour", fl), ("backend", backend_name())]), detail);
                 }
                 if let Some((cname, inc, one)) = self.parity.take() {
                     out.probe("verify.parity_compared");
